@@ -1280,6 +1280,7 @@ mut("C12", "SILENT_xor_self_rhs_size", TOS, "                        *self = Exp
 mut("C12", "SILENT_piece_base_minus", SUBR, """                low_byte: sub_size,
                 size: base_size - sub_size,""", """                low_byte: sub_size,
                 size: base_size - sub_register.size,""", [], "same size through the field")
+mut("C02", "mult_overflow_min_regress", BVX, "            if is_minus_one_times_min || result.clone().into_checked_sdiv(self).unwrap() != *rhs {", "            if result.clone().into_checked_sdiv(self).unwrap() != *rhs {", ["R9|signed_mult_with_overflow_flag"], "reverts fix 79656db")
 
 for prop, name, spec in M:
     if name.startswith("SILENT_"):
